@@ -152,8 +152,14 @@ def compile(
             msg = f"No PDK named {pdk}"
             raise RuntimeError(msg)
     elif isinstance(pdk, ModuleType):
-        # Ensure that `pdk` is registered and checked as a valid PDK module
-        register(pdk)
+        # PDK packages commonly register an inner module, and re-export its `compile`.
+        # Given such a package, use the module it has registered rather than registering a second PDK.
+        same = [m for m in _mgr.modules if m.compile is getattr(pdk, "compile", None)]
+        if same:
+            pdk = same[0]
+        else:
+            # Ensure that `pdk` is registered and checked as a valid PDK module
+            register(pdk)
 
     if pdk is None:  # Check for no-default-available cases
         if not len(_mgr.modules):
